@@ -12,6 +12,10 @@ Decomposition (DESIGN.md section 3 "C11", adapted to measurements, see harness/C
        reset_<alg>         reset from an arbitrary state: counter 0, chaining state independent of the past
        huge_*              ONE update of 2^32 <= len < 2^61 bytes (symbolic), bug-hunting mode (loop cut, no unwinding assertion)
        gost_sum256         the real GOST 256-bit adder against a reference adder for all operand pairs
+ (f) frame_static_<unit>   frame condition / per-object independence: the compiled unit never writes (or takes the address of) a non-const
+                           static-storage object - GOTO-program audit, see harness/C11_frame.c (contracts and CBMC threads were probed
+                           and cannot decide it: local statics are auto-added to contract write sets; 2 threads x sha512 process: no
+                           answer in 300 s / 36 GB)
  (b) disp_type<t>          the real dispatcher pcryptohash.c over stub algorithms, symbolic call sequences
  (c) keccak_round/_sched_* Keccak-f[1600] round function == FIPS 202 for all 2^1600 states; 24-round schedule, iota constants, absorb
      kat_<type>            published vectors through the encoding: real dispatcher + real algorithm, 7 concrete messages per type
@@ -61,6 +65,10 @@ META = {
         "disp_*: the six algorithm families are stubs that record the dispatcher's calls and return symbolic digest bytes; allocator = ledger "
         "model (models/alloc.c) whose failure is chosen symbolically at every get_string (disp_*_oomnew: at p_crypto_hash_new)",
         "kat_*: expected digests from Python hashlib (OpenSSL) resp. libgcrypt+nettle for GOST-CryptoPro, spot-checked against RFC 1321 / FIPS 180-4 / FIPS 202 / published GOST vectors",
+        "frame_static_*: per-object independence (no hidden channel between two PCryptoHash objects, e.g. under concurrent use) is reduced to "
+        "'the unit writes no static-storage object'; that is decided by a may-write audit of the compiled GOTO program (non-const static-lifetime "
+        "symbols that are assignment roots or address-taken), not by the solver; writes through caller-supplied pointers stay inside the "
+        "context/buffers by the bounds checks of the step queries",
         "histories: one step from an arbitrary valid context state (buffer prefix = pending bytes, rest arbitrary, counter arbitrary, state arbitrary); "
         "the step post-condition re-establishes that state description, so chunk sequences of any length follow by induction",
     ],
@@ -74,6 +82,8 @@ META = {
         "single updates of more than 2*block+2 bytes other than the huge_* bug-hunting queries (block loop cut after 2 iterations, no unwinding assertion)",
         "messages of 2^61 bytes or more (bit count leaves 64 bits; GOST update drops bits 61..63 of len)",
         "big-endian hosts",
+        "actual multi-threaded executions (no interleaving is explored for C11; only the static-storage frame audit above); hidden channels that "
+        "do not go through static storage of the audited units (pcryptohash*.c, pipc.c), e.g. through the allocator",
         "SHA-3: p_crypto_hash_sha3_update with len close to 2^64 (ctx->len + len wraps)",
         "whether a get_digest refused for a short buffer finalises the hash (the property does not say)",
     ],
@@ -235,9 +245,106 @@ def disp_q(t, nops, oomnew=False):
                      "digest_bytes": "symbolic"})
 
 
+# ---- frame condition: the compiled unit writes no static-storage object (see harness/C11_frame.c) -------------------------
+def _irep_root_symbol(e):
+    """root object of an lvalue expression: descends index/member/byte_extract/typecast operand 0"""
+    while isinstance(e, dict):
+        if e.get("id") == "symbol":
+            return e.get("namedSub", {}).get("identifier", {}).get("id")
+        if e.get("id") in ("index", "member", "typecast", "byte_extract_little_endian", "byte_extract_big_endian") and e.get("sub"):
+            e = e["sub"][0]
+        else:
+            return None
+    return None
+
+
+def _irep_walk(e, taken):
+    """collect the root symbols of all address_of sub-expressions (array-to-pointer decay is address_of(index(a,0)))"""
+    if isinstance(e, dict):
+        if e.get("id") == "address_of" and e.get("sub"):
+            r = _irep_root_symbol(e["sub"][0])
+            if r:
+                taken.add(r)
+        for v in e.get("sub", []):
+            _irep_walk(v, taken)
+        for k, v in e.get("namedSub", {}).items():
+            if k not in ("type", "#source_location"):
+                _irep_walk(v, taken)
+
+
+def _is_const(t):
+    ns = t.get("namedSub", {}) if isinstance(t, dict) else {}
+    if "#constant" in ns:
+        return True
+    if t.get("id") == "array" and t.get("sub"):
+        return _is_const(t["sub"][0])
+    return False
+
+
+def static_audit(unit):
+    """-> (list of written/address-taken non-const static-lifetime objects of the compiled unit, None) or (None, error text)"""
+    import json, tempfile, shutil
+    d = tempfile.mkdtemp(prefix="verif_C11_audit_")
+    try:
+        defines, incs, _ = vf.repo_flags()
+        obj = os.path.join(d, "u.gb")
+        rc, out, _ = vf.run(["goto-cc", "-c", "-o", obj, os.path.join(vf.REPO, unit)] + defines + incs, timeout=120)
+        if rc != 0:
+            return None, "goto-cc failed: " + out[-300:]
+
+        def dump(opt):
+            rc, out, _ = vf.run(["goto-instrument", opt, "--json-ui", obj], timeout=120)
+            return json.loads(out)
+        mutable = set()
+        for m in dump("--show-symbol-table"):
+            if isinstance(m, dict) and "symbolTable" in m:
+                for name, sy in m["symbolTable"].items():
+                    t = sy.get("type", {})
+                    if (sy.get("isStaticLifetime") and sy.get("isLvalue") and not sy.get("isType") and not name.startswith("__CPROVER")
+                            and t.get("id") != "code" and not _is_const(t)):
+                        mutable.add(name)
+        written, taken = set(), set()
+        for m in dump("--show-goto-functions"):
+            if isinstance(m, dict) and "functions" in m:
+                for f in m["functions"]:
+                    if f.get("isInternal") or f["name"].startswith("__CPROVER"):
+                        continue
+                    for ins in f.get("instructions", []):
+                        code = ins.get("code")
+                        if isinstance(code, dict):
+                            st = code.get("namedSub", {}).get("statement", {}).get("id")
+                            if st in ("assign", "function_call") and code.get("sub"):
+                                r = _irep_root_symbol(code["sub"][0])
+                                if r:
+                                    written.add(r)
+                            _irep_walk(code, taken)
+                        if isinstance(ins.get("guard"), dict):
+                            _irep_walk(ins["guard"], taken)
+        return sorted(mutable & (written | taken)), None
+    except Exception as e:      # tooling problem: reported as INCONCLUSIVE by the harness, never as a pass
+        return None, "audit failed: %r" % (e,)
+    finally:
+        shutil.rmtree(d, ignore_errors=True)
+
+
+def frame_q(unit):
+    bad, err = static_audit(unit)
+    tag = os.path.basename(unit)[:-2].replace("-", "_")
+    if bad is None:
+        hd = ["AUDIT_FAILED", "NSTATIC_WRITTEN=1"]
+    else:
+        hd = ["NSTATIC_WRITTEN=%d" % len(bad), '-DSTATIC_WRITTEN_NAMES="%s"' % (", ".join(bad) or "none")]
+    return Q("frame_static_%s" % tag, "harness/C11_frame.c", units=[unit], models=MODELS, hdefs=hd, timeout=300,
+             note=err or "", funcs=["all functions of " + unit],
+             bounds={"unit": unit, "method": "GOTO-program audit of the compiled unit (symbol table + assignment / address-of scan); "
+                                            "not a solver decision", "written_or_address_taken_mutable_statics": bad})
+
+
 def queries(tier):
     quick = tier == "quick"
     qs = []
+    # ---- frame condition: no hidden static-storage channel between PCryptoHash objects ---------------------------------------
+    qs += [frame_q(u) for u in ALGUNITS[:7] + ["src/pipc.c"]]
     # ---- (a) update: data movement ------------------------------------------------------------------------------
     if quick:
         lefts = {"md5": [0, 1, 63], "sha1": [0, 63], "sha2_256": [0, 63], "sha2_512": [127], "sha3_256": [135], "gost": [0, 1, 31]}
